@@ -16,4 +16,5 @@ CONF = dict(
  'outputs'),
     level_note=('Trusted: Coq kernel, the hand-written model (validated by the correspondence run), extraction with ExtrOcamlBasic, the harness. Window taken on whole '
  'seconds as the code does. No axioms (Closed under the global context).'),
+    min_cases={'ntp.cmp': 450, 'ntp.from64': 1800, 'ntp.order': 900, 'ntp.roundtrip': 3600, 'ntp.to64': 900},
 )
